@@ -19,7 +19,8 @@ Layouts (all scalar fields little endian, key material big endian):
       the same 36-byte head, RoT meta = u32 flags || AHAB SRK table (4 records), DCK (X||Y or n||e), signature
   DAC: u16 v0, u16 v1, u32 socc, 16 uuid, u32 revocation, RoT hash (32/48/64), u32 pinned, u32 default, u32 cc_vu,
        32 challenge
-  DAR: DC || u32 authentication beacon || signature by DCK over DC || beacon || [uuid, ECC versions] || challenge
+  DAR: DC || u32 authentication beacon || [16 uuid, ECC versions] || signature by DCK over
+       DC || beacon || [uuid, ECC versions] || challenge      (stored lengths: tests/dat/test_dar_packet.py 1200 / 316 / 444)
 """
 from __future__ import annotations
 
@@ -328,10 +329,13 @@ def dar_signed_data(dc: bytes, auth_beacon: int, uuid: bytes | None, challenge: 
     return dc + struct.pack("<L", auth_beacon) + (uuid if uuid is not None else b"") + challenge
 
 
-def parse_dar(data: bytes, dc_len: int, sig_len: int) -> dict:
-    if len(data) != dc_len + 4 + sig_len:
-        raise LayoutError("DAR has %d bytes, want %d + 4 + %d" % (len(data), dc_len, sig_len))
-    return {"dc": data[:dc_len], "auth_beacon": struct.unpack_from("<L", data, dc_len)[0], "signature": data[dc_len + 4 :]}
+def parse_dar(data: bytes, dc_len: int, sig_len: int, with_uuid: bool) -> dict:
+    """with_uuid: the ECC protocol versions transmit the device uuid between beacon and signature."""
+    ul = 16 if with_uuid else 0
+    if len(data) != dc_len + 4 + ul + sig_len:
+        raise LayoutError("DAR has %d bytes, want %d + 4 + %d + %d" % (len(data), dc_len, ul, sig_len))
+    return {"dc": data[:dc_len], "auth_beacon": struct.unpack_from("<L", data, dc_len)[0],
+            "uuid": data[dc_len + 4 : dc_len + 4 + ul] if with_uuid else None, "signature": data[dc_len + 4 + ul :]}
 
 
 # ------------------------------------------------------------------ AHAB certificate (EdgeLock container version 2 DC)
